@@ -90,7 +90,7 @@ func DriveHeap(r *rec.Rec, rng *rand.Rand, run, ops int, variant string) {
 			s := rng.Intn(4)
 			emit("Shrink", []int{s}, 0, func() int { h.Shrink(s); return resOK })
 		default:
-			for h.Len() > 0 { // drain: must come out in non-decreasing priority order
+			for tries := 0; h.Len() > 0 && tries < 4096; tries++ { // drain: must come out in non-decreasing priority order
 				emit("Pop", []int{}, 0, func() int { return h.Pop() })
 			}
 		}
@@ -198,7 +198,7 @@ func DrivePQ(r *rec.Rec, rng *rand.Rand, run, ops int, variant string) {
 			g := rng.Intn(20)
 			emit("Grow", []int{g}, 0, func() int { q.Grow(g); return resOK })
 		default:
-			for q.Len() > 0 {
+			for tries := 0; q.Len() > 0 && tries < 4096; tries++ {
 				emit("Pop", []int{}, 0, func() int { return q.Pop() })
 			}
 		}
